@@ -12,8 +12,8 @@ FUNCTIONS_ENCODED = ["Node.stop", "Node._handle_connections (stop branch, interr
                      "Node.close_connection_socket", "PeerConnection.close / work_write_queue / work_read_queue", "Application.stop"]
 ASSUMPTIONS = ["time.sleep(1) inside Node.stop is the scheduler hook: each sleep = one second of virtual time, the world settles, the scripted peers react",
                "StoppableThread.join of the I/O thread = run its body to completion with the stop flag set (a thread is its body function); real OS joins/timeouts are not modelled"]
-BOUNDS = {"quick": "connection A of peer1 in {outbound connecting, inbound awaiting CER, outbound awaiting CEA, ready, awaiting DWA, disconnecting}; connection B in {none, second ready connection of peer1, peer2 ready, peer2 awaiting CER}; each ready peer answers the DPR promptly / late / never / just closes; a new inbound connection and a persistent-peer reconnect deadline inside the window; force in {False, True}; wait timeout in {2, 6}",
-          "thorough": "same with a third connection"}
+BOUNDS = {"quick": "(native after concretisation) connection A of peer1 in {outbound connecting, inbound awaiting CER, outbound awaiting CEA, ready, awaiting DWA, disconnecting}; connection B in {none, second ready connection of peer1, peer2 ready, peer2 awaiting CER}; each ready peer answers the DPR promptly / late / never / just closes; a new inbound connection and a persistent-peer reconnect deadline inside the window; force in {False, True}; wait timeout in {2, 6}; newcomer and reconnect deadline independently; the I/O thread scheduled eagerly after the first DPR or not",
+          "thorough": "same"}
 OUTSIDE = ["3+ connections", "real joins/timeouts of OS threads"]
 
 A_STATES = ["out_connecting", "in_pre_cer", "out_pre_cea", "ready", "waiting_dwa", "disconnecting"]
@@ -27,16 +27,23 @@ def scenario(sa: int, kb: int, ra: int, rb: int, force: bool, wt: int, newcomer:
     pre: (not force) or (ra == 0 and rb == 0)
     pre: P["sa"] in (3, 4) or ra == 0
     pre: P["kb"] in (1, 2) or rb == 0
-    pre: (not P["quick"]) or (wt == 2 and newcomer == deadline)
     pre: (not eager_io) or (not force and P["kb"] in (1, 2) and P["sa"] in (3, 4))
     post: _
     """
     hx.begin()
+    inputs = (sa, kb, ra, rb, force, wt, newcomer, deadline, eager_io)
     sa_n = A_STATES[P["sa"]]
     kb_n = B_KINDS[P["kb"]]
     react = [REACT[hx.concretize_range(ra, 0, len(REACT))], REACT[hx.concretize_range(rb, 0, len(REACT))]]
     W = 2 if wt == 2 else 6
-    inputs = (sa, kb, ra, rb, force, wt, newcomer, deadline, eager_io)
+    # every input is a choice: fix the remaining ones (one solver-decided branch each), then the shutdown runs natively
+    force, newcomer, deadline, eager_io = bool(hx.concretize(force)), bool(hx.concretize(newcomer)), bool(hx.concretize(deadline)), bool(hx.concretize(eager_io))
+    with hx.untraced():
+        obs = _scenario_body(sa_n, kb_n, react, W, force, newcomer, deadline, eager_io)
+    return hx.check(inputs, obs, ("",), "graceful shutdown")
+
+
+def _scenario_body(sa_n, kb_n, react, W, force, newcomer, deadline, eager_io):
     import diameter.node._helpers as helpers
     saved_join = helpers.StoppableThread.join
     try:
@@ -208,7 +215,7 @@ def scenario(sa: int, kb: int, ra: int, rb: int, force: bool, wt: int, newcomer:
             B.PeerConnection.add_out_msg = real_add
         except NameError:
             pass
-    return hx.check(inputs, obs, ("",), "graceful shutdown")
+    return obs
 
 
 def specs(tier, seed, carve):
@@ -218,5 +225,5 @@ def specs(tier, seed, carve):
         for kb in range(len(B_KINDS)):
             out.append(dict(id="scenario/%s/%s" % (A_STATES[sa], B_KINDS[kb]), fn="scenario", params={"sa": sa, "kb": kb, "quick": q}, timeout=1500 if q else 6000,
                             bound="connection A %s, B %s; each ready peer answers the DPR %s; force; %s" % (
-                                A_STATES[sa], B_KINDS[kb], REACT, "wait timeout 2, newcomer+reconnect deadline together" if q else "wait timeout {2, 6}; newcomer; reconnect deadline")))
+                                A_STATES[sa], B_KINDS[kb], REACT, "wait timeout {2, 6}; newcomer; reconnect deadline")))
     return out
